@@ -315,7 +315,7 @@ CLAIMED = {
              "written; the WHOLE connection: C14_shutdown_cut - compared with the same connection never shut down, a shutdown requested at ANY moment "
              "either makes no difference or makes the task return at a request boundary: the handler invocations are an initial segment of the "
              "undisturbed run's (same requests, results and transport log at every invocation boundary), every one closed with its complete epilogue, "
-             "the transport log a prefix, no more input consumed (non-vacuity: C14_shutdown_cut_example); end to end this is also exercised by the correspondence check (shutdown requested before every scheduling step k of Pending-heavy "
+             "the transport log a prefix, no more input consumed (non-vacuity: C14_shutdown_cut_example); C14_shutdown_answers_inflight - on the decoded log: with a shutdown at any moment every closed invocation is answered by exactly one EndRequest of its id after the empty stream records, and the task returns with every invocation it started closed; end to end this is also exercised by the correspondence check (shutdown requested before every scheduling step k of Pending-heavy "
              "connections, idle clients woken by shutdown) + oracle. The wait-group windows are forced on the real crate through the "
              "cfg(fastcgi_server_verif) hook (/repo ed42bbf); in addition mode wg_race runs real two-thread races of one poll against the last token "
              "drop (10^5 steered trials per case; sound oracle, probabilistic detection) as a supporting search for windows no hook reaches.",
